@@ -363,3 +363,79 @@ def odd_patterns():
             '**(a)', '***', '+(', '+(a|*(b|?(c)))', '@(a)(b)', 'a@(b', '@(a\\)', '@(a\\', '@([a)])', '@([)])', '[(]', '@(a[)b])',
             '!(a)b!(c)', '!(a).', '!(.)', '!(.*)', '.!(a)', '?(.)a', '*(.)a', '@(.|a)b', '[.]a', '\\.a', '!(a)?(!(b))', '!(a)@(b)',
             '!(a)+(!(b)c)', '[\\-a]', '[a&&b]', '[a||b]', '[a~~b]', '[\\.]', '[\\/]', '{a,b}', '~', '-a', '!a', '\\!a', '\\-a']
+
+
+# ---------------------------------------------------------------------------------------------------
+# systematic bracket expressions
+
+def _norm_iv(ivs):
+    ivs = sorted(ivs)
+    out = []
+    for a, b in ivs:
+        if out and a <= out[-1][1] + 1:
+            out[-1] = (out[-1][0], max(out[-1][1], b))
+        else:
+            out.append((a, b))
+    return tuple(out)
+
+
+def bracket_components():
+    comps = []
+    for ch in 'abAz.*0_':
+        comps.append((ch, ((ord(ch), ord(ch)),), 'char'))
+    for ch in '^!':
+        comps.append((ch, ((ord(ch), ord(ch)),), 'notfirst'))
+    for a, b in (('a', 'c'), ('A', 'b'), ('0', '9'), ('+', '0'), ('a', 'a'), (' ', '~'), ('x', 'z')):
+        comps.append((f'{a}-{b}', ((ord(a), ord(b)),), 'range'))
+    for name in ('alpha', 'digit', 'upper', 'lower', 'space', 'punct', 'xdigit', 'alnum', 'word', 'blank', 'cntrl', 'graph', 'print', 'ascii'):
+        comps.append((f'[:{name}:]', POSIX[name], 'posix'))
+    for ch in ']-\\a':
+        comps.append(('\\' + ch, ((ord(ch), ord(ch)),), 'esc'))
+    return comps
+
+
+def bracket_pool(tier, rnd):
+    """('cls', text, neg, ivs) nodes built from components; semantics = union of the components, then negation."""
+    comps = bracket_components()
+    out = []
+    seen = set()
+
+    def add(prefix, parts, lead='', trail=''):
+        text = '[' + prefix + lead + ''.join(p[0] for p in parts) + trail + ']'
+        ivs = []
+        for p in parts:
+            ivs += list(p[1])
+        if lead == ']':
+            ivs.append((93, 93))
+        if lead == '-' or trail == '-':
+            ivs.append((45, 45))
+        if text in seen:
+            return
+        seen.add(text)
+        out.append(('cls', text, bool(prefix), _norm_iv(ivs)))
+
+    for prefix in ('', '!', '^'):
+        for c in comps:
+            if c[2] != 'notfirst':
+                add(prefix, [c])
+            add(prefix, [comps[0], c])
+        add(prefix, [comps[0]], lead=']')
+        add(prefix, [comps[0]], lead='-')
+        add(prefix, [comps[0]], trail='-')
+        add(prefix, [comps[10]], trail='-')          # range then trailing hyphen
+        add(prefix, [comps[17]], trail='-')          # posix then trailing hyphen
+    pairs = [(a, b) for a in comps for b in comps if a is not b and a[2] != 'notfirst']
+    if tier == 'quick':
+        rnd.shuffle(pairs)
+        pairs = pairs[:260]
+    for a, b in pairs:
+        add('', [a, b])
+        if (len(out) % 3) == 0:
+            add('!', [a, b])
+    triples = 120 if tier == 'quick' else 1500
+    for _ in range(triples):
+        a, b, c = rnd.choice(comps), rnd.choice(comps), rnd.choice(comps)
+        if a[2] == 'notfirst':
+            continue
+        add(rnd.choice(['', '', '!', '^']), [a, b, c])
+    return out
